@@ -479,7 +479,11 @@ func (c *Connection) handlePingRes(frame *Frame) bool {
 
 // handlePingReq responds to the pingReq message with a pingRes.
 func (c *Connection) handlePingReq(frame *Frame) {
-	if state := c.readState(); state != connectionActive {
+	// A connection that is draining after Close (accepted calls still in flight) keeps
+	// answering pings, e.g. the peer's health check: a protocol error here would tear the
+	// connection down and fail every call that is being drained. Only a closed connection
+	// cannot answer any more.
+	if state := c.readState(); state == connectionClosed {
 		c.protocolError(frame.Header.ID, errConnNotActive{"ping on incoming", state})
 		return
 	}
